@@ -138,6 +138,9 @@ SHAPES = {
     "outsource-create-and-trim": ["assert outsource('data-y') == snapshot()", "assert 5 in snapshot([5, 6])"],
     "outsource-fix": ["assert outsource('data-z') == snapshot(external('0123456789ab*.txt'))"],
     "outsource-in-list": ["assert [outsource('a1'), outsource(b'b2')] == snapshot([1])"],
+    "outsource-same-data-twice": ["assert outsource('data-x') == snapshot()", "assert outsource('data-x') == snapshot()"],
+    "outsource-same-data-in-list": ["assert [outsource('dd'), outsource('dd'), outsource(b'dd')] == snapshot()"],
+    "outsource-same-data-fix-and-create": ["assert outsource('data-x') == snapshot(external('0123456789ab*.txt'))", "assert {'k': outsource('data-x')} == snapshot()"],
     "outsource-then-raise": ["assert outsource('data-w') == snapshot()", "raise ValueError('x')"],
     "outsource-sub": ["s = snapshot({'old': 1})", "assert s['new'] == outsource('data-v')"],
 }
@@ -170,6 +173,16 @@ def build(tier, seed):
         pairs = pairs[::37]
     for i in range(0, len(pairs), 8):
         tasks.append({"progs": [list(p) for p in pairs[i : i + 8]], "fs": FS if tier == "thorough" else [list(CATS), ["create", "fix"], ["trim", "update"], []], "drv": "inline"})
+    # the same shape twice in one file, and shapes spread over two files (the same data outsourced at several places among them)
+    ext = [n for n in names if n.startswith("outsource")]
+    twice = [[n, n] for n in (names if tier == "thorough" else ext + names[::9])]
+    for i in range(0, len(twice), 6):
+        for drv in ("inline", "plugin"):
+            tasks.append({"progs": twice[i : i + 6], "fs": [list(CATS), ["create", "fix"], ["fix"]], "drv": drv})
+    split = [[a, b] for a in ext for b in ext] + [[n, n] for n in names[::7]]
+    for i in range(0, len(split), 6):
+        for drv in ("inline", "plugin"):
+            tasks.append({"progs": split[i : i + 6], "fs": [list(CATS), ["create", "fix"], ["create"]], "drv": drv, "split": True})
     pf = [list(CATS), ["create", "fix"], ["fix"], ["trim", "update"], ["create"], []] if tier == "quick" else FS
     for i in range(0, len(names), 3):
         tasks.append({"progs": [[n] for n in names[i : i + 3]], "fs": pf, "drv": "plugin"})
@@ -181,6 +194,10 @@ def run_case(case):
     if case.get("cwd"):
         return _run_elsewhere(case)
     src = source(names)
+    files = {"test_something.py": src}
+    if case.get("split"):
+        files = {"test_f%d.py" % i: source([n]) for i, n in enumerate(names)}
+        src = "\n# ---- next file ----\n".join(v[len(PRE):] for v in files.values())
     viol = []
 
     def V(what, detail):
@@ -189,27 +206,29 @@ def run_case(case):
     if drv == "inline":
         from ..drivers.inline import run_inline
 
-        r = run_inline({"test_something.py": src}, F)
+        r = run_inline(files, F)
         if r["error"]:
             V("finish-phase-exception", "%s: %s\n%s" % (r["error"]["type"], r["error"]["msg"][:300], r["error"]["tb"][-700:]))
             return viol
-        after = r["files"].get("test_something.py", "")
+        after = {k: r["files"].get(k, "") for k in files}
     else:
         from ..drivers import plugin
 
-        d = plugin.mk_project({"test_something.py": src, "pyproject.toml": ""})
+        d = plugin.mk_project(dict(files, **{"pyproject.toml": ""}))
         try:
             r = plugin.session(d, ["--inline-snapshot=" + ",".join(F)])
-            after = plugin.listing(d, text=True).get("test_something.py", "")
+            lst = plugin.listing(d, text=True)
+            after = {k: lst.get(k, "") for k in files}
         finally:
             plugin.cleanup()
         if plugin.internal_error(r["out"]) or r["rc"] not in (0, 1):
             V("finish-phase-exception", "rc=%s\n%s" % (r["rc"], r["out"][-1200:]))
             return viol
-    try:
-        ast.parse(after)
-    except SyntaxError as e:
-        V("result-not-valid-python", "%s\n%s" % (e, after[len(PRE):][-600:]))
+    for k, text in after.items():
+        try:
+            ast.parse(text)
+        except SyntaxError as e:
+            V("result-not-valid-python", "%s: %s\n%s" % (k, e, text[len(PRE):][-600:]))
     return viol
 
 
@@ -246,13 +265,15 @@ def run_task(task):
             case = {"names": names, "F": F, "drv": task["drv"]}
             if task.get("cwd"):
                 case["cwd"] = task["cwd"]
+            if task.get("split"):
+                case["split"] = True
             vs = run_case(case)
             out["n"] += 1
             if vs:
                 out["violations"] += [dict(v, sig=_sig(case, v)) for v in vs]
                 lab = "viol:" + vs[0]["what"]
             else:
-                out["nontrivial"].append(repr((names, F, task["drv"])))
+                out["nontrivial"].append(repr((names, F, task["drv"], task.get("split"), task.get("cwd"))))
                 lab = "ok:" + task["drv"]
             out["outcomes"][lab] = out["outcomes"].get(lab, 0) + 1
     out["samples"].append({"shapes": task["progs"][0], "driver": task["drv"], "body": SHAPES[task["progs"][0][0]]})
